@@ -21,6 +21,17 @@ pub struct H {
     pub delta: isize,
     /// index within the old side of a context line replaced by JUNK
     pub corrupt: Option<usize>,
+    /// a second change group inside the same hunk: (unchanged lines in between, lines removed, lines added)
+    pub inner: Option<(usize, usize, Vec<u8>)>,
+}
+
+impl H {
+    pub fn old_len(&self) -> usize {
+        self.p + self.rm + self.inner.as_ref().map(|(k, r, _)| k + r).unwrap_or(0) + self.s
+    }
+    pub fn new_len(&self) -> usize {
+        self.p + self.add.len() + self.inner.as_ref().map(|(k, _, a)| k + a.len()).unwrap_or(0) + self.s
+    }
 }
 
 pub fn hunks_for(file: &[u8], maxctx: usize, deltas: &[isize]) -> Vec<H> {
@@ -37,13 +48,32 @@ pub fn hunks_for(file: &[u8], maxctx: usize, deltas: &[isize]) -> Vec<H> {
                         continue;
                     }
                     for &delta in deltas {
-                        v.push(H { pos: core - p, p, s, rm, add: add.clone(), delta, corrupt: None });
+                        v.push(H { pos: core - p, p, s, rm, add: add.clone(), delta, corrupt: None, inner: None });
                     }
                     if p > 0 {
-                        v.push(H { pos: core - p, p, s, rm, add: add.clone(), delta: 0, corrupt: Some(0) });
+                        v.push(H { pos: core - p, p, s, rm, add: add.clone(), delta: 0, corrupt: Some(0), inner: None });
                     }
                     if s > 0 {
-                        v.push(H { pos: core - p, p, s, rm, add: add.clone(), delta: 0, corrupt: Some(p + rm + s - 1) });
+                        v.push(H { pos: core - p, p, s, rm, add: add.clone(), delta: 0, corrupt: Some(p + rm + s - 1), inner: None });
+                    }
+                    // hunks with two change groups and unchanged lines in between (what a diff with context produces
+                    // for nearby changes): the inner lines are context for the parser but not leading/trailing context
+                    if rm + add.len() == 1 || (rm == 1 && add.len() == 1) {
+                        for keep in 1..=2usize {
+                            for &(rm2, ref add2) in &[(1usize, vec![]), (1, vec![FRESH]), (0, vec![FRESH])] {
+                                if core + rm + keep + rm2 + s > n || s > maxctx.min(n - core - rm - keep - rm2) {
+                                    continue;
+                                }
+                                let inner = Some((keep, rm2, add2.clone()));
+                                v.push(H { pos: core - p, p, s, rm, add: add.clone(), delta: 0, corrupt: None, inner: inner.clone() });
+                                if p > 0 {
+                                    v.push(H { pos: core - p, p, s, rm, add: add.clone(), delta: 0, corrupt: Some(0), inner: inner.clone() });
+                                }
+                                if s > 0 {
+                                    v.push(H { pos: core - p, p, s, rm, add: add.clone(), delta: 0, corrupt: Some(p + rm + keep + rm2 + s - 1), inner: inner.clone() });
+                                }
+                            }
+                        }
                     }
                 }
             }
@@ -58,8 +88,8 @@ pub fn render(file: &[u8], hs: &[&H], inverse: bool) -> Vec<u8> {
     let mut txt = b"--- f\n+++ f\n".to_vec();
     let mut shift: isize = 0;
     for h in hs {
-        let oc = h.p + h.rm + h.s;
-        let nc = h.p + h.add.len() + h.s;
+        let oc = h.old_len();
+        let nc = h.new_len();
         let os = (h.pos as isize + 1 + h.delta).max(1);
         let ns = (os + shift).max(1);
         if !inverse {
@@ -100,9 +130,44 @@ pub fn render(file: &[u8], hs: &[&H], inverse: bool) -> Vec<u8> {
                 txt.extend(sym_line(*c));
             }
         }
-        for i in 0..h.s {
+        let mut at = h.pos + h.p + h.rm;
+        if let Some((keep, rm2, add2)) = &h.inner {
+            for _ in 0..*keep {
+                txt.push(b' ');
+                txt.extend(sym_line(sym_at(at, idx)));
+                at += 1;
+                idx += 1;
+            }
+            let mut rm2_lines = vec![];
+            for _ in 0..*rm2 {
+                rm2_lines.push(sym_at(at, idx));
+                at += 1;
+                idx += 1;
+            }
+            if !inverse {
+                for c in &rm2_lines {
+                    txt.push(b'-');
+                    txt.extend(sym_line(*c));
+                }
+                for a in add2 {
+                    txt.push(b'+');
+                    txt.extend(sym_line(*a));
+                }
+            } else {
+                for a in add2 {
+                    txt.push(b'-');
+                    txt.extend(sym_line(*a));
+                }
+                for c in &rm2_lines {
+                    txt.push(b'+');
+                    txt.extend(sym_line(*c));
+                }
+            }
+        }
+        for _ in 0..h.s {
             txt.push(b' ');
-            txt.extend(sym_line(sym_at(h.pos + h.p + h.rm + i, idx)));
+            txt.extend(sym_line(sym_at(at, idx)));
+            at += 1;
             idx += 1;
         }
         shift += nc as isize - oc as isize;
@@ -111,9 +176,9 @@ pub fn render(file: &[u8], hs: &[&H], inverse: bool) -> Vec<u8> {
 }
 
 /// geometry of an applied hunk from its report: (block start, block end, core start, core end) in original coordinates
-fn geom(hr: &HR, sh: &HunkShape) -> Option<(usize, usize, usize, usize)> {
+fn geom(hr: &HR, sh: &HunkShape, ps: (usize, usize)) -> Option<(usize, usize, usize, usize)> {
     if let HR::Applied { line, fuzz, .. } = hr {
-        let (pf, sf, tp, ts) = trims(sh.prefix, sh.suffix, *fuzz);
+        let (pf, sf, tp, ts) = trims(ps.0, ps.1, *fuzz);
         if *line < 0 {
             return None;
         }
@@ -149,23 +214,29 @@ pub struct Judged {
 }
 
 /// Both oracles for one executed case.
-pub fn judge(orig: &[u8], before: &FileState, a: &Applied) -> Judged {
+/// `ctx`: leading/trailing context sizes of each hunk as the generator built it (the parser's own idea of them is
+/// part of what is being checked)
+pub fn judge(orig: &[u8], before: &FileState, a: &Applied, ctx: &[(usize, usize)]) -> Judged {
     // original lines
     let olines: Vec<&[u8]> = orig.split_inclusive(|&c| c == b'\n').collect();
     let mut expected: Vec<u8> = vec![];
     let mut cursor = 0usize;
     let mut bad: Option<String> = None;
     let mut geoms = vec![];
-    for (hr, sh) in a.hunks.iter().zip(a.shapes.iter()) {
+    for ((hr, sh), ps) in a.hunks.iter().zip(a.shapes.iter()).zip(ctx.iter()) {
         if let HR::Applied { line, fuzz, .. } = hr {
-            let g = match geom(hr, sh) {
+            if *fuzz > ps.0.max(ps.1) {
+                bad = Some(format!("fuzz-{}-exceeds-context", fuzz));
+                break;
+            }
+            let g = match geom(hr, sh, *ps) {
                 Some(g) => g,
                 None => {
                     bad = Some("negative-line".into());
                     break;
                 }
             };
-            let (pf, sf, _tp, _ts) = trims(sh.prefix, sh.suffix, *fuzz);
+            let (pf, sf, _tp, _ts) = trims(ps.0, ps.1, *fuzz);
             let (bs, be, cs, ce) = g;
             if be > olines.len() || (bs..be).zip(sh.old[pf..sh.old.len() - sf].iter()).any(|(i, l)| olines[i] != &l[..]) {
                 bad = Some(format!("reported-position-does-not-match:line{}", line));
@@ -178,7 +249,7 @@ pub fn judge(orig: &[u8], before: &FileState, a: &Applied) -> Judged {
             for l in &olines[cursor..cs] {
                 expected.extend_from_slice(l);
             }
-            for l in &sh.new[sh.prefix..sh.new.len() - sh.suffix] {
+            for l in &sh.new[ps.0..sh.new.len() - ps.1] {
                 expected.extend_from_slice(l);
             }
             cursor = ce;
@@ -235,7 +306,8 @@ pub fn judge(orig: &[u8], before: &FileState, a: &Applied) -> Judged {
     Judged { class: format!("hunks-{}", rel), c03, c04, napplied, overlapping }
 }
 
-fn run_case(which: &str, txt: &[u8], fbytes: &[u8], rev: bool, fmax: usize, rep: &mut Report) {
+fn run_case(which: &str, txt: &[u8], fbytes: &[u8], rev: bool, fmax: usize, hs: &[&H], rep: &mut Report) {
+    let ctx: Vec<(usize, usize)> = hs.iter().map(|h| (h.p, h.s)).collect();
     rep.evaluations += 1;
     let before = FileState { content: fbytes.to_vec(), deleted: false, mode: Some(0o100644) };
     let r = parse_apply(txt, Some(fbytes), before.mode, rev, fmax, which == "c04");
@@ -249,7 +321,11 @@ fn run_case(which: &str, txt: &[u8], fbytes: &[u8], rev: bool, fmax: usize, rep:
             rep.violation("harness", "parse", || apply_witness(txt, Some(fbytes), before.mode, rev, fmax, J::s("parses to one file patch"), J::s(&format!("{:?}", e))));
         }
         Ok(a) => {
-            let j = judge(fbytes, &before, a);
+            if a.hunks.len() != ctx.len() {
+                rep.violation("harness", "hunk-count", || apply_witness(txt, Some(fbytes), before.mode, rev, fmax, J::s("as many hunks as generated"), J::u(a.hunks.len() as u64)));
+                return;
+            }
+            let j = judge(fbytes, &before, a, &ctx);
             rep.count(&format!("applied-hunks-{}", j.napplied));
             if j.overlapping {
                 rep.count("overlapping-context");
@@ -299,7 +375,7 @@ pub fn run(which: &str, args: &[String]) {
             for fmax in 0..=fcap {
                 for &rev in &[false, true] {
                     let txt = render(file, &[h1], rev);
-                    run_case(which, &txt, &fbytes, rev, fmax, rep);
+                    run_case(which, &txt, &fbytes, rev, fmax, &[h1], rep);
                 }
             }
             for h2 in &hs {
@@ -309,14 +385,14 @@ pub fn run(which: &str, args: &[String]) {
                 for &rev in &[false, true] {
                     let txt = render(file, &[h1, h2], rev);
                     for fmax in 0..=fcap {
-                        run_case(which, &txt, &fbytes, rev, fmax, rep);
+                        run_case(which, &txt, &fbytes, rev, fmax, &[h1, h2], rep);
                     }
                 }
             }
         }
         if triples > 0 {
             // reduced menu: exact stated lines, no corruption, context <= 1
-            let hr: Vec<H> = hunks_for(file, maxctx.min(1), &[0]).into_iter().filter(|h| h.corrupt.is_none()).collect();
+            let hr: Vec<H> = hunks_for(file, maxctx.min(1), &[0]).into_iter().filter(|h| h.corrupt.is_none() && h.inner.is_none()).collect();
             for h1 in &hr {
                 for h2 in &hr {
                     if h2.pos + h2.p < h1.pos {
@@ -328,7 +404,7 @@ pub fn run(which: &str, args: &[String]) {
                         }
                         let txt = render(file, &[h1, h2, h3], false);
                         for fmax in 0..=fcap.min(1) {
-                            run_case(which, &txt, &fbytes, false, fmax, rep);
+                            run_case(which, &txt, &fbytes, false, fmax, &[h1, h2, h3], rep);
                         }
                     }
                 }
